@@ -9,7 +9,7 @@ cd /verif
 for id in "$@"; do
   out=$(./check "$id" "$tier" 2>&1); code=$?
   echo "== $patch $id exit=$code"
-  echo "$out" | grep -E "^(VIOLATION|KNOWN-FINDING|MACHINERY|CAP|--- )" | cut -c1-300 | head -12
+  echo "$out" | grep -aE "^(VIOLATION|KNOWN-FINDING|MACHINERY|CAP|--- )" | cut -c1-300 | head -12
   echo "$out" | tail -1 | cut -c1-300
 done
 cd /repo && git reset -q && git checkout -- . && git status --short | head -3
